@@ -379,6 +379,10 @@ def job_tables(tier):
     return res
 
 
+def _count(res, name):
+    res.extra[name] = res.extra.get(name, 0) + 1
+
+
 def _unordered(groups):
     return groups if groups == 'ValueError' else [sorted(g) for g in groups]
 
@@ -395,13 +399,13 @@ def job_custom(specs, plan):
                 'none' if ins[0] is None else 'binary' if ins[1] else 'unary', ins[4]),
                 {'kind': 'table', 'spec': spec}, 'observed %r expected %r' % (observed, groups))
         if groups == 'ValueError':
-            res.outcomes['insert: ValueError'] += 1
+            _count(res, 'insert_sequences_expected_ValueError')
             continue
         if not M.well_formed(groups) or not M.homogeneous(groups):
             res.out_of_domain += 1
-            res.outcomes['insert: table only (not homogeneous)'] += 1
+            _count(res, 'insert_sequences_table_only_not_homogeneous')
             continue
-        res.outcomes['insert: homogeneous table parsed'] += 1
+        _count(res, 'insert_sequences_homogeneous_engine_built_and_parsed')
         engine = factory.create()
         table, bins, pre, post = table_parts(groups)
         symbols = table.symbols()
